@@ -542,6 +542,28 @@ def shrunk_into_helper(x, have, gain_new_cr):
     return False
 
 
+def _eq_became_match(l, hatoms):
+    """`opt.map(|m| *m == T::V).unwrap_or(false)` / `x == T::V` rewritten as `matches!(x, Some(T::V))` / `match x { T::V => .. }`: the comparison
+    (dec / must / grd atoms naming the field) and the constant it was compared with (`new T::V`) are lost, a `match` arm on exactly T::V over the
+    same field appears. Forgiven only as that pair (another variant in the new match is a different test)."""
+    news = [x for c, x in l if c == "new" and "::" in x]
+    if not news:
+        return l
+    drop = set()
+    for v in news:
+        for y in hatoms.get("dec", []) + hatoms.get("arm", []):
+            if not y.startswith('["match", ["%s"' % v):
+                continue
+            flds = set(re.findall(r'"(\.[A-Za-z_]\w*)"', y))
+            if not flds:
+                continue
+            hit = [(c, x) for c, x in l if c in ("dec", "must", "grd", "grdn") and ('"eq"' in x or "call:::eq" in x) and flds & set(re.findall(r'"(\.[A-Za-z_]\w*)"', x.replace('\\"', '"')))]
+            if hit:
+                drop.update(hit)
+                drop.add(("new", v))
+    return [e for e in l if e not in drop]
+
+
 def atom_losses(ref, cur, cats, reach=None):
     """`reach(path)`: {directly called workspace function: names reachable from it} of the current function (atoms.callee_reach), or None.
     ref / cur: {function path: {category: [atoms]}}. Returns (lost, gone_missing, gone_ok):
@@ -639,6 +661,8 @@ def atom_losses(ref, cur, cats, reach=None):
                 if c in ("arg", "recv", "fld", "set") and shrunk_into_helper(x, hv, gain_new.get(cr, {})):
                     continue      # the form lost leaves that a NEW function of the crate now has (the statements that fed the value moved into a helper)
                 l.append((c, x))
+        if l:
+            l = _eq_became_match(l, hatoms)
         if l:
             lost[path] = l
     return lost, gone_missing, gone_ok
